@@ -58,7 +58,7 @@ PROPS = {
         "assumed": [],
     },
     "C09": {
-        "verus": ["auditor"],
+        "verus": ["auditor", ("azks_walk", ["TreeNode.update_hash", "node_to_azks_value", "node_to_label", "TreeNode.get_latest_epoch"])],
         "kani": ["c05"],
         "search": True,
         "bounded_search": [{"obligation": "auditor/ensure_prefix_free#completeness",
@@ -201,6 +201,7 @@ PROPS = {
                  "the walk get_append_only_proof_helper itself (sequential branch, spawned task body and join, all under contract): what it returns equals walk_spec of the stored tree - a subtree not updated after s is reported by its root with the value its parent hashes (the tree root is not reported), "
                  "a subtree whose oldest descendant is younger than e is skipped, a leaf in between is reported as inserted with its stored value, otherwise both children are walked; "
                  "L-AUDIT (proved): on a stored tree whose epoch summaries bound its leaves, for EVERY s <= e the unchanged roots cover exactly the leaves born <= s and the inserted elements are exactly the leaves born in (s, e]; "
+                 "update_hash stores, for every non-leaf node, the parent hash of exactly the (value, label) pairs node_to_azks_value / node_to_label report for its two children as read at its epoch, and changes nothing else; "
                  "new_leaf_node gives a leaf both epochs = birth epoch; set_child maintains (last_epoch, min_descendant_epoch) as max/min summaries of the descendants (with frame: nothing else changes; refusal exactly for a child that "
                  "does not extend the parent). Not decided: that re-inserting the reported elements into an empty tree reproduces the published root hashes (trie-insertion correctness of recursive_batch_insert_nodes), and the auditor's comparison itself (C09).",
         "trusted": ["NodeLabel::get_prefix_ordering as a function (its meaning is proved under C17)", "core::cmp::{max,min} assumed via cmp_spec",
